@@ -7,11 +7,12 @@ from decaylib import F, Gen, ancestors_sum, is_finite, within
 from oracle import DatasetView, LeanOracle, eval_adaptive
 
 NEEDS_DATASET = True
-TARGETS = ["RdVerif.Props.C03", "RdVerif.Props.C04", "RdVerif.Props.C01Oracle", "RdVerif.Props.C03Oracle"]
+TARGETS = ["RdVerif.Props.C03", "RdVerif.Props.C04", "RdVerif.Props.C01Oracle", "RdVerif.Props.C03Oracle", "RdVerif.Props.AllDatasets"]
 THEOREMS = ["RdVerif.C03.C03_integral", "RdVerif.C03.C03_stable", "RdVerif.C03.C03_atom_balance",
             "RdVerif.C04.exact_inverses", "RdVerif.C04.exact_diagonalises",
             "RdVerif.C01.C01_oracle_sound", "RdVerif.C03.C03_oracle_sound", "RdVerif.C03.C03_oracle_cached",
-            "RdVerif.C01.C01_ln2_certified"]
+            "RdVerif.C01.C01_ln2_certified", "RdVerif.AllDatasets.cum_integral", "RdVerif.AllDatasets.atom_balance",
+            "RdVerif.AllDatasets.cum_oracle_sound"]
 PARTIAL = {
     "C03_error_bound_partial": "double-precision deviation (<= 1e-11 x ancestors' atoms) and the 1e-13 relative accuracy of the "
                                "high-precision class are checked per input against the oracle cumEncl, which is PROVED to enclose the exact "
@@ -149,6 +150,37 @@ def correspondence(rep, ctx, ncases=None):
 
 
 def search(rep, ctx) -> bool:
+    """a tie broke: the atom balance needs no model — for EVERY radionuclide as single parent, after one of its
+    half-lives, N_i(t) - N_i(0) + D_i - sum_j b_ji D_j must vanish (within the float bound) for every chain member, with
+    N from decay(), D from cumulative_decays() and b from branching_fraction() of the real code"""
+    rd = ctx.rd
+    dd = rd.DEFAULTDATA
+    view = DatasetView(dd)
+    for i in range(view.n):
+        if view.rate[i] == 0:
+            continue
+        nm0 = view.names[i]
+        tsec = float(1 / view.rate[i])
+        try:
+            inv = rd.Inventory({nm0: 1.0e12}, "num")
+            dec = inv.decay(tsec, "s").numbers()
+            cum = inv.cumulative_decays(tsec, "s")
+        except Exception as e:  # noqa: BLE001
+            rep.violation("failing-input", f"Inventory({{{nm0!r}: 1e12}}).decay/cumulative_decays({tsec!r}, 's') raised "
+                          f"{type(e).__name__}: {e}", {"call": "balance", "nuclide": nm0, "t_s": tsec}, True)
+            return True
+        for g in view.descendants([i]):
+            nm = view.names[g]
+            res = F(dec[nm]) - (Fraction(10**12) if g == i else 0) + (F(cum[nm]) if nm in cum else 0)
+            for p, _b in view.parents[g]:
+                pn = view.names[p]
+                if pn in cum:
+                    res -= F(dd.branching_fraction(pn, nm)) * F(cum[pn])
+            if abs(res) > 4 * TOL * 10**12:
+                rep.violation("failing-input", f"Inventory({{{nm0!r}: 1e12}}, 'num') after {tsec!r} s: the atom balance of {nm} does "
+                              f"not close: N(t) - N(0) + D - sum b*D(parents) = {float(res):.6e} atoms (allowed {float(4 * TOL * 10**12):.1e})",
+                              {"call": "balance", "nuclide": nm0, "t_s": tsec, "member": nm}, True)
+                return True
     return False
 
 
